@@ -6,6 +6,7 @@ import (
 	"path/filepath"
 	"strings"
 
+	"github.com/google/reftable/verifvfs/vos"
 	"verif/harness/eng"
 	"verif/harness/gen"
 	"verif/harness/rep"
@@ -48,6 +49,8 @@ func RunC05(c *Ctx) {
 		}
 	}
 	idx = e.explicitRanges(idx, true)
+	// I/O errors: a failed operation must not publish a list naming missing tables
+	idx = e.faultFamilies(idx, true, "", 2)
 	kinds := []string{"add", "add", "addbig", "compactall", "autocompact", "autocompact", "clean", "close,open", "reopen", "compactexpiry", "addmulti", "cr01", "cr12", "cr23"}
 	n := c.N(2000, 60000)
 	for i := 0; i < n; i++ {
@@ -165,6 +168,74 @@ func (e *engRunner) crashSweep(family string, idx int, gcfg gen.Cfg, rec eng.Rec
 	}
 	r.Count("ops_fully_enumerated", 1)
 	return points, true
+}
+
+// faultSweep: the k-th filesystem operation of A=[aDesc] fails with an injected I/O error,
+// for every k (removals excepted); A continues with the rest of its script, then B=[bDesc]
+// runs. M-own (idle process owns nothing, directory = list + listed tables at
+// quiescence), M-dir, M-view, M-commit and the final-state fold stay in force.
+func (e *engRunner) faultSweep(family string, idx int, gcfg gen.Cfg, rec eng.Recipe, aDesc, bDesc string, every bool) (points int) {
+	c := e.c
+	r := c.Rep
+	mk := func(k int) *eng.Scenario {
+		ts := newTxnSource(gen.Mix(c.Seed, int64(idx)*1000+31), gcfg.HashSize())
+		name := fmt.Sprintf("A=[%s] uninterrupted, then B=[%s]", aDesc, bDesc)
+		if k > 0 {
+			name = fmt.Sprintf("A=[%s] with an I/O error injected at its filesystem operation %d, then B=[%s]", aDesc, k, bDesc)
+		}
+		return &eng.Scenario{Name: name, GCfg: gcfg, Init: rec,
+			Scripts: [][]eng.Call{append([]eng.Call{{Kind: "open"}}, ts.mkCalls(aDesc)...), append([]eng.Call{{Kind: "open"}}, ts.mkCalls(bDesc)...)},
+			Policy:  &eng.Seq{}, FaultProc: 0, FaultAt: k, CheckDirEvery: every}
+	}
+	res := e.run(mk(0), family, idx)
+	if res.SetupErr != nil || res.Aborted {
+		return 0
+	}
+	nops := res.Procs[0].NOps()
+	for k := 1; k <= nops+2; k++ {
+		res := e.run(mk(k), family, idx)
+		if res.SetupErr != nil {
+			return points
+		}
+		if res.Procs[0].FaultFired == nil {
+			continue // the k-th operation was a removal, or the run was shorter
+		}
+		points++
+		if os.Getenv("VERIF_DEBUG_FAULT") != "" {
+			fmt.Fprintf(os.Stderr, "FAULT idx=%d a=%s rec=%v cfg=%s k=%d/%d op=%s results=%v\n", idx, aDesc, rec, gcfg.String(), k, nops, res.Procs[0].FaultFired.String(), res.Actors[0].Results)
+			if os.Getenv("VERIF_DEBUG_FAULT") == "2" {
+				for _, o := range res.W.S.Trace {
+					fmt.Fprintf(os.Stderr, "    %s\n", o.String())
+				}
+			}
+		}
+		r.Count("io_faults_injected", 1)
+		r.Count("calls_failed_by_io_fault", res.W.FaultErrors)
+		op := res.Procs[0].FaultFired
+		r.SetAdd("io_fault_sites", op.Kind+"|"+vos.PathClass(op.Path)+"|"+op.Site+"|in "+op.Call)
+		r.Nontrivial(rep.Hash("fault", family, gcfg.String(), rec.String(), aDesc, bDesc, fmt.Sprint(k)))
+	}
+	return points
+}
+
+// faultFamilies: every filesystem operation of every call kind fails once (quick tier:
+// one in `sample` of the (call, initial stack, continuation) combinations).
+func (e *engRunner) faultFamilies(idx int, every bool, suffix string, sample int) int {
+	c := e.c
+	fops := []string{"add", "addbig", "addmulti", "compactall", "autocompact", "compactexpiry", "clean", "addempty", "add,add,add", "reopen", "cr01", "cr12", "addbad", "addmultiabandon", "close"}
+	fconts := []string{"add,compactall", "clean,add"}
+	for oi, op := range fops {
+		for ri, rec := range []eng.Recipe{{}, {0, 0}, {200, 40, 0, 0}, {-1, -2, 0}, {0, 0, 0, 0, 0, 0, 0}} {
+			for ci, cont := range fconts {
+				use := c.Thorough() || (oi+ri+ci)%sample == 0
+				if use && c.Mine(idx) {
+					e.faultSweep("io-fault-sweep", idx, engCfg(oi+ri), rec, op+suffix, cont, every)
+				}
+				idx++
+			}
+		}
+	}
+	return idx
 }
 
 // RunC06: a crash at any point leaves the previous or the next committed state.
@@ -291,6 +362,25 @@ func RunC10(c *Ctx) {
 			}
 		}
 	}
+	// the list changes WITHOUT any new file appearing: a prefix (or an inner range) of
+	// the stack cancels out and is dropped, the tables above it stay. The stale handle
+	// then reloads (all names it needs are already open) and reads.
+	if haveCompactRange {
+		for ri, rec := range []eng.Recipe{{-1, -2, 0}, {-1, -2, 0, 0}, {60, -1, -2, 0}, {-1, -2}} {
+			for pi, pro := range []string{"cr01", "cr01,add", "cr12", "cr01,cr01"} {
+				for ai, a := range []string{"add,read", "addempty,read", "clean,read", "reopen,read", "autocompact,read", "read,add,read"} {
+					for bi, b := range []string{"", "add"} {
+						if c.Mine(idx) {
+							e.sweepStale("list-shrinks-without-new-table-sweep", idx, engCfg(ri+pi+ai+bi), rec, pro, a, b)
+						}
+						idx++
+					}
+				}
+			}
+		}
+	}
+	// I/O errors inside Add / compaction / reload: the handle keeps a consistent view
+	idx = e.faultFamilies(idx, false, ",read,add,read", 3)
 	kinds := []string{"add", "add", "read", "read", "read", "compactall", "autocompact", "reopen", "addbig", "compactexpiry", "clean"}
 	n := c.N(2500, 120000)
 	for i := 0; i < n; i++ {
@@ -359,6 +449,7 @@ func RunC16(c *Ctx) {
 			idx++
 		}
 	}
+	idx = e.faultFamilies(idx, false, ",clean", 2)
 	n := c.N(2000, 100000)
 	for i := 0; i < n; i++ {
 		if c.Mine(idx) {
